@@ -292,10 +292,10 @@ def mshow(m):
 
 def plan(tier, seed):
     units = [{'part': 'maps', 'shard': i, 'of': 12} for i in range(12)] + [{'part': 'constructors'}] + \
-            [{'part': 'arrays', 'start': i} for i in range(3)] + [{'part': 'deep-equal'}]
+            [{'part': 'arrays', 'start': i} for i in range(3)] + [{'part': 'deep-equal'}] + [{'part': 'nested', 'shard': i, 'of': 4} for i in range(4)]
     return {
         'units': units,
-        'bounds': {'keys': len(KEYS), 'values': len(VALUES), 'map_depth': 2 if tier == 'quick' else 3, 'array_depth': 3 if tier == 'quick' else 4,
+        'bounds': {'nested_array_size': NESTED_SIZE[tier], 'keys': len(KEYS), 'values': len(VALUES), 'map_depth': 2 if tier == 'quick' else 3, 'array_depth': 3 if tier == 'quick' else 4,
                    'merge_policies': ['use-first', 'use-last', 'combine', 'reject', 'use-any']},
         'rule': 'BFS over map values from map{} and three seeded maps with every put/remove/merge/entry operation over the key and value '
                 'alphabets, deduplicated on the canonical model value; every observer for every key after each transition; operand '
@@ -795,7 +795,108 @@ def run_deep_equal(unit, tier, acc):
     acc.sample({'expression': 'deep-equal((map{}, 1), (map{}, 2))', 'expected': False})
 
 
+NESTED_SIZE = {'quick': 5, 'thorough': 6}
+NESTED_LEAVES = [('1', 1), ("'v'", 'v'), ('()', ('seq', ())), ('(1, 2)', ('seq', (1, 2)))]
+
+
+def nested_arrays(size):
+    """every array term [m1, ..] whose total number of nodes (arrays + leaves) is <= size, as (source, model); members are the four
+    leaves or arrays, recursively - so arrays nested to any depth the size allows, with sequence and empty members at every level"""
+    memo = {}
+
+    def members(budget):                # -> list of (source, model, cost) for ONE member of cost <= budget
+        out = [(src, mv, 1) for src, mv in NESTED_LEAVES] if budget >= 1 else []
+        for cost in range(1, budget + 1):
+            for src, mv in arrays_exact(cost):
+                out.append((src, mv, cost))
+        return out
+
+    def arrays_exact(cost):             # arrays whose node count is exactly cost (the array itself counts 1)
+        if cost in memo:
+            return memo[cost]
+        res = []
+
+        def rec(rest, acc_src, acc_mod):
+            if rest == 0:
+                res.append(('[' + ', '.join(acc_src) + ']', ('arr', tuple(acc_mod))))
+                return
+            for src, mv, c in members(rest):
+                if c <= rest:
+                    rec(rest - c, acc_src + [src], acc_mod + [mv])
+        if cost >= 1:
+            rec(cost - 1, [], [])
+        memo[cost] = res
+        return res
+    out = []
+    for c in range(1, size + 1):
+        out.extend(arrays_exact(c))
+    return out
+
+
+def model_flatten(v):
+    if isinstance(v, tuple) and v and v[0] in ('seq', 'arr'):
+        out = []
+        for y in v[1]:
+            out.extend(model_flatten(y))
+        return out
+    return [v]
+
+
+def model_depth(v):
+    if isinstance(v, tuple) and v and v[0] == 'arr':
+        return 1 + max([model_depth(y) for y in v[1]] or [0])
+    return 0
+
+
+def run_nested(unit, tier, acc):
+    """arrays nested to depth >= 3 and arrays holding sequences below the first level: flatten, atomization, members, size, identity"""
+    from elementpath import ElementPathError
+    from elementpath.xpath_tokens import XPathArray
+    B = Bind()
+    terms = nested_arrays(NESTED_SIZE[tier])
+    reported = set()
+    for idx, (src, mv) in enumerate(terms):
+        if idx % unit['of'] != unit['shard']:
+            continue
+        flat = model_flatten(mv)
+        want_flat = flat[0] if len(flat) == 1 else ('seq', tuple(flat))
+        first_level = []
+        for m_ in mv[1]:
+            first_level.extend(m_[1] if isinstance(m_, tuple) and m_ and m_[0] == 'seq' else [m_])
+        checks = [('flatten', 'array:flatten(%s)' % src, want_flat),
+                  ('flatten-count', 'count(array:flatten(%s))' % src, len(flat)),
+                  ('flatten-in-sequence', 'array:flatten((%s, 7, %s))' % (src, src), canon_value(('seq', tuple(flat + [7] + flat)))),
+                  ('atomization', 'data(%s)' % src, want_flat),
+                  ('size', 'array:size(%s)' % src, len(mv[1])),
+                  ('members', '%s?*' % src, canon_value(('seq', tuple(first_level)))),
+                  ('constructor-identity', src, canon_value(mv)),
+                  ('deep-equal-self', 'deep-equal(%s, %s)' % (src, src), True),
+                  ('flatten-idempotent', 'deep-equal(array:flatten(array:flatten(%s)), array:flatten(%s))' % (src, src), True)]
+        acc.case(len(flat) > 0)
+        for kind, expr, want in checks:
+            try:
+                r = B.ev(expr)
+                got = B.to_model_value(r)
+            except ElementPathError as e:
+                got = ('error', (e.code or '').split(':')[-1])
+            except Exception as e:  # noqa
+                got = ('escape', type(e).__name__ + ':' + str(e)[:60])
+            acc.ev()
+            acc.cmp()
+            acc.outcome('nested:%s:%s' % (kind, 'ok' if got == want else 'different'))
+            if got != want:
+                sig = 'C15|nested-array|%s|depth-%d|%s' % (kind, min(model_depth(mv), 3), 'sequence-member-below-first-level' if any(
+                    isinstance(x, tuple) and x and x[0] == 'arr' and any(isinstance(y, tuple) and y and y[0] == 'seq' for y in x[1]) for x in mv[1]) else 'plain')
+                if sig not in reported:
+                    reported.add(sig)
+                    acc.violation(sig, expr, {'expected': repr(want)[:200], 'observed': repr(got)[:200]}, {'part': 'nested', 'shard': unit['shard'], 'of': unit['of']})
+    acc.sample({'nested_array': terms[min(len(terms) - 1, 40 + unit['shard'])][0], 'checks': ['array:flatten', 'data()', 'array:size', '?*', 'deep-equal']}, limit=1)
+    acc.add('nested_array_terms', len([1 for i in range(len(terms)) if i % unit['of'] == unit['shard']]))
+
+
 def run_unit(unit, tier, acc):
+    if unit['part'] == 'nested':
+        return run_nested(unit, tier, acc)
     {'maps': run_maps, 'constructors': run_constructors, 'arrays': run_arrays, 'deep-equal': run_deep_equal}[unit['part']](unit, tier, acc)
 
 
@@ -808,5 +909,7 @@ def replay(case, acc):
         run_arrays({'start': case.get('start', 0)}, 'quick', acc)
     elif p == 'constructors':
         run_constructors({}, 'quick', acc)
+    elif p == 'nested':
+        run_nested(case, 'quick', acc)
     else:
         run_deep_equal({}, 'quick', acc)
